@@ -471,6 +471,13 @@ func parseGetValue(out string) []string {
 }
 
 // TryReplay runs the counterexample of a failed obligation on the real code. ok = reproduced.
+// LastGenericTest: source and package directory of the test generated by the last TryReplay of this obligation (so
+// that `govc replay <file>` can run it again).
+type GenericTest struct {
+	PkgDir string `json:"pkg_dir"`
+	Source string `json:"source"`
+}
+
 func (o *Obligation) TryReplay(repo string) (ok bool, report string) {
 	pl := o.Replay
 	if pl == nil || o.Raw != "" {
@@ -633,6 +640,7 @@ func (o *Obligation) TryReplay(repo string) (ok bool, report string) {
 	if len(text) > 4000 {
 		text = text[:4000]
 	}
+	o.GenericTest = &GenericTest{PkgDir: pl.pkgDir, Source: t.String()}
 	report = "--- generic replay: the model's inputs run on the real code (in-package test via -overlay) ---\n" + t.String() + "\n--- output ---\n" + text
 	for _, l := range strings.Split(text, "\n") {
 		if strings.HasPrefix(l, "REPRODUCED: ") {
